@@ -117,7 +117,13 @@ def has_property_decorator(func_node: ast.FunctionDef | ast.AsyncFunctionDef) ->
     Returns:
         True if function has @property decorator
     """
-    return any(
-        isinstance(decorator, ast.Name) and decorator.id == "property"
-        for decorator in func_node.decorator_list
-    )
+    return any(_is_property_decorator(decorator) for decorator in func_node.decorator_list)
+
+
+def _is_property_decorator(decorator: ast.expr) -> bool:
+    """Check for @property, its accessors (@x.setter/.getter/.deleter) and @cached_property."""
+    if isinstance(decorator, ast.Name):
+        return decorator.id in ("property", "cached_property")
+    if isinstance(decorator, ast.Attribute):
+        return decorator.attr in ("setter", "getter", "deleter", "cached_property")
+    return False
